@@ -36,19 +36,19 @@ BASE = dict(MaxArr=2, MaxReal=2, MaxGhost=1, MaxPart=2, MaxFlags=2,
             CflVals='Cfl1', Dt='Dt1000')
 # design universes per tier (constants of TimeStepMC.tla; value sets by name)
 UNIVERSES = {
-    'quick': [dict(BASE, HVals='H4', FVals='F2', VVals='V2')],
+    'quick': [dict(BASE, HVals='H4', CVals='C2', FVals='F2', VVals='V2')],
     'thorough': [dict(BASE),
                  dict(BASE, MaxArr=3, HVals='H3', VVals='V2')],
 }
-NRANDOM = {'quick': 8000, 'thorough': 60000}
+NRANDOM = {'quick': 6000, 'thorough': 60000}
 # history leg (constants of TimeStepHistMC.tla)
 HBASE = dict(NArr=2, NAsks=3, MaxOps=1, MaxReal=2, HVals='H2', AVals='A1',
-             CVals='C2', NDamps='{0, 2}', Cfl='CflHalf', Dt='Dt1000')
+             CVals='C1', NDamps='{0, 2}', Cfl='CflHalf', Dt='Dt1000')
 HUNIVERSES = {
     'quick': [dict(HBASE)],
-    'thorough': [dict(HBASE, HVals='H3', NDamps='{0, 1, 2, 3}')],
+    'thorough': [dict(HBASE, HVals='H3', NDamps='{0, 2, 3}')],
 }
-NRANDOMH = {'quick': 3000, 'thorough': 30000}
+NRANDOMH = {'quick': 2000, 'thorough': 20000}
 HDEFECTS = ('H-cache-nonempty', 'H-double-damp')
 DEFECTS = ('C19-hmin-starts-at-1', 'C19-empty-array-hmin',
            'C19-dt-adapt-ghost-only', 'C19-dt-adapt-no-particles')
@@ -368,10 +368,22 @@ def drive(chk, cases, tag, nproc=16, chunk=6000, seed_defect=None):
 def validate(chk, traces, tag, per_batch=6000):
     sc = chk.scratch
     files = []
-    for i in range(0, len(traces), per_batch):
-        f = os.path.join(sc, '%s-batch-%d.ndjson' % (tag, i // per_batch))
+    # batches of about equal cost: an ask of a history costs about as much
+    # as a case
+    batch, cost = [], 0
+    batches = []
+    for t in traces:
+        batch.append(t)
+        cost += len(t['asks']) + 1 if 'asks' in t else 1
+        if cost >= per_batch:
+            batches.append(batch)
+            batch, cost = [], 0
+    if batch:
+        batches.append(batch)
+    for i, b in enumerate(batches):
+        f = os.path.join(sc, '%s-batch-%d.ndjson' % (tag, i))
         with open(f, 'w') as fp:
-            for t in traces[i:i + per_batch]:
+            for t in b:
                 fp.write(json.dumps(t) + '\n')
         files.append(f)
     try:
@@ -446,27 +458,32 @@ def nontrivial(t):
 
 
 def selftest(chk, cases):
-    """The binding must be live: with a repaired defect re-introduced in the
-    driver process (the real code otherwise), the verdicts must contain
-    failures that nothing explains.  Writes no evidence and no replay."""
-    seed = os.environ.get('C19_SEED_DEFECT') or 'hmin1'
-    traces = drive(chk, cases, 's', seed_defect=seed)
-    verdicts, st = validate(chk, traces, 'sv')
-    by_tr = {t['id']: t for t in traces}
-    caught = [r for r in verdicts
-              if r['v']['failed'] and not r['v']['explained']]
-    for r in caught[:3]:
-        tr = by_tr[r['v']['id']]
-        print('SELFTEST caught: VIOLATION property=C19 seeded=%s clauses %s '
-              'fail: inputs %s -> %s / %s' % (
-                  seed, sorted(r['v']['failed']),
-                  json.dumps(inputs_of(tr)), json.dumps(tr['res']),
-                  json.dumps(tr['sres'])))
-    print('C19 selftest: seeded defect %r, %d cases, %d reported as '
-          'violations' % (seed, len(traces), len(caught)))
-    if not caught:
-        raise MachineryError('selftest: seeded defect %r was not caught'
-                             % seed)
+    """The binding must be live: with a defect re-introduced in the driver
+    process (the real code otherwise), the verdicts must contain failures
+    that nothing explains.  Writes no evidence and no replay."""
+    seeds = [os.environ['C19_SEED_DEFECT']] if \
+        os.environ.get('C19_SEED_DEFECT') else \
+        ['hmin1', 'cachenonempty', 'doubledamp']
+    sub = [c for i, c in enumerate(cases) if 'asks' in c or i % 5 == 0]
+    for seed in seeds:
+        traces = drive(chk, sub, 's-' + seed, seed_defect=seed)
+        verdicts, st = validate(chk, traces, 'sv-' + seed)
+        by_tr = {t['id']: t for t in traces}
+        caught = [r for r in verdicts
+                  if r['v']['failed'] and not r['v']['explained']]
+        for r in caught[:2]:
+            tr = by_tr[r['v']['id']]
+            print('SELFTEST caught: VIOLATION property=C19 seeded=%s clauses '
+                  '%s fail%s: inputs %s -> %s' % (
+                      seed, sorted(r['v']['failed']),
+                      ' at ask %d' % r['v']['step'] if 'step' in r['v']
+                      else '', json.dumps(inputs_of(tr))[:700],
+                      results_of(tr)))
+        print('C19 selftest: seeded defect %r, %d cases/histories, %d '
+              'reported as violations' % (seed, len(traces), len(caught)))
+        if not caught:
+            raise MachineryError('selftest: seeded defect %r was not caught'
+                                 % seed)
     sys.exit(0)
 
 
@@ -481,7 +498,9 @@ def run():
 
 def check(chk):
     rng = random.Random(chk.seed)
-    info = None
+    info = hinfo = None
+    nuni = nhuni = nrand = 0
+    hists = []
     phase = {}
     t0 = time.time()
     if chk.args.replay:
@@ -490,9 +509,16 @@ def check(chk):
         c['id'] = obj.get('id', 'replay')
         cases = [c]
     else:
-        cases, info = design(chk)
+        with ThreadPoolExecutor(max_workers=2) as ex:
+            fh = ex.submit(design_hist, chk)
+            cases, info = design(chk)
+            hists, hinfo = fh.result()
         nuni = len(cases)
+        nhuni = len(hists)
         cases += [random_case(rng, i) for i in range(NRANDOM[chk.tier])]
+        nrand = len(cases) - nuni
+        hists += [random_history(rng, i) for i in range(NRANDOMH[chk.tier])]
+        cases += hists
     # only findings of status "known" may explain a failure (TraceTimeStep)
     known_ids = sorted(f['id'] for f in chk.findings
                        if f['status'] == 'known')
@@ -515,35 +541,61 @@ def check(chk):
     by_v = {r['v']['id']: r for r in verdicts}
     keys = set()
     kinds = {}
+    nasks = 0
+    fallback_damped = 0
     for t in traces:
-        kinds[t['res']['k']] = kinds.get(t['res']['k'], 0) + 1
+        if 'asks' in t:
+            nasks += len(t['asks'])
+            for q in t['asks']:
+                kinds[q['res']['k']] = kinds.get(q['res']['k'], 0) + 1
+                if (q['res']['k'] == 'none' and t['ndamp'] > 0 and
+                        q['count'] < t['ndamp']):
+                    fallback_damped += 1
+        else:
+            kinds[t['res']['k']] = kinds.get(t['res']['k'], 0) + 1
         if nontrivial(t):
             keys.add(json.dumps(inputs_of(t), sort_keys=True))
-    smp = next((t for t in traces if nontrivial(t) and
+    singles = [t for t in traces if 'asks' not in t]
+    hist_tr = [t for t in traces if 'asks' in t]
+    samples = []
+    smp = next((t for t in singles if nontrivial(t) and
                 not by_v[t['id']]['v']['failed'] and len(t['arrays']) > 1),
-               traces[0])
-    samples = [dict(inputs=inputs_of(smp), res=smp['res'], sres=smp['sres'],
-                    verdict=by_v[smp['id']])]
+               singles[0] if singles else None)
+    if smp is not None:
+        samples.append(dict(inputs=inputs_of(smp), res=smp['res'],
+                            sres=smp['sres'], verdict=by_v[smp['id']]))
+    hsmp = next((t for t in hist_tr if nontrivial(t) and t['ndamp'] > 0),
+                hist_tr[0] if hist_tr else None)
+    if hsmp is not None:
+        samples.append(dict(history=dict(hsmp), verdict=by_v[hsmp['id']]))
     bad = next((t for t in traces if by_v[t['id']]['v']['failed']), None)
     if bad is not None:
-        samples.append(dict(inputs=inputs_of(bad), res=bad['res'],
-                            sres=bad['sres'], msg=bad['msg'],
-                            verdict=by_v[bad['id']]))
+        samples.append(dict(inputs=inputs_of(bad), results=results_of(bad),
+                            msg=bad['msg'], verdict=by_v[bad['id']]))
     info = info or dict(states=0, transitions=0)
+    hinfo = hinfo or dict(states=0, transitions=0)
     chk.cov.update(dict(
-        states=info['states'] or st['distinct'],
-        transitions=info['transitions'] or st['generated'],
-        design_model='TimeStepMC.tla; universes: %s' % json.dumps(
-            info.get('universes', [])),
+        states=(info['states'] + hinfo['states']) or st['distinct'],
+        transitions=(info['transitions'] + hinfo['transitions']) or
+        st['generated'],
+        design_model='TimeStepMC.tla; universes: %s; TimeStepHistMC.tla; '
+                     'universes: %s' % (json.dumps(info.get('universes', [])),
+                                        json.dumps(hinfo.get('universes',
+                                                             []))),
         design_result='Documented (the statement, no masking) and Functional '
                       'hold on every case for the mechanism as it is; with '
                       'each repaired defect re-introduced in the model TLC '
                       'finds a violating case (defect_sensitivity)',
-        defect_sensitivity=info.get('sensitivity', {}),
+        defect_sensitivity=dict(info.get('sensitivity', {}),
+                                **hinfo.get('sensitivity', {})),
         known_ids_that_may_mask=known_ids,
         traces_validated_against_impl=len(verdicts),
-        universe_cases=(0 if chk.args.replay else nuni),
-        random_cases=(0 if chk.args.replay else len(cases) - nuni),
+        universe_cases=nuni,
+        random_cases=nrand,
+        universe_histories=nhuni,
+        random_histories=len(hists) - nhuni,
+        history_asks=nasks,
+        asks_falling_back_while_damped=fallback_damped,
         evaluations=len(traces),
         result_kinds=kinds,
         failing_cases=sum(1 for r in verdicts if r['v']['failed']),
@@ -558,7 +610,12 @@ def check(chk):
              'are printed by TLC (every case of the design model), the '
              'random ones are generated; distinct by those inputs; '
              'non-trivial when some optional property has a positive value '
-             'on a real particle',
+             'on a real particle.  A history is one sequence of 3-4 asks on '
+             'ONE Integrator/NNPS/Solver driven through the real '
+             'Solver.solve() with changes of the arrays between the asks '
+             '(universe histories printed by TLC, random ones generated); '
+             'distinct by initial arrays, ops, n_damp, cfl, dt; non-trivial '
+             'when a criterion applies at some ask',
         exhaustive=True,
         samples=samples,
     ))
@@ -571,9 +628,14 @@ def check(chk):
         'driver never refreshes carray minima itself',
         'values are exact rationals with exact roots (h squares and dt_force '
         'fourth powers whenever a positive dt_force occurs); float results '
-        'are reduced to fractions with numerator, denominator <= 32767 and '
+        'are reduced to fractions with numerator, denominator <= 8191 and '
         'compared to 1 part in 2^20',
-        'Solver built without setup() (no compilation); damping factor 1',
+        'Solver built without setup() (no compilation)',
+        'histories: real Solver.solve() with output disabled; only '
+        'integrator.step (needs the compiled integrator) and '
+        'initial_acceleration are replaced on the instance: step applies the '
+        'changes to the real arrays, then nnps.update_domain(), '
+        'nnps.update(); n_damp in 0..3 (damping factors exact rationals)',
     ]
     chk.finish()
 
